@@ -44,7 +44,7 @@ CHECKS = {
             "run; the parts that depend on CPython frame introspection (TEAL identical with/without map, one entry per line, marker "
             "attribution) are decided by running generated multi-file projects in fresh processes (labelled exploration in the evidence).",
             "Trusted: Lean kernel, TEAL tokeniser spec, tabulate layout (checked on every produced line), CPython frames/executing/algosdk as "
-            "runtime. Three known findings (user file whose path contains a PyTeal-internal path fragment is misattributed; the feature gate, and a source-map request in a router's second compilation, renumber scratch slots).",
+            "runtime. Three known findings (user file whose path contains a PyTeal-internal path fragment is misattributed; the feature gate, and a source-map request in a router's second compilation, renumber scratch slots); one defect repaired (consistency recompile ignored assembly_type_track).",
             "DESIGN.md Part II C15"),
     "C04": ("proof",
             "Lean 4: verified legality / control-flow checker `Flow.wf` run on the real TEAL of every explored program (soundness theorems over Avm.step: no run-off, no undefined label, no retsub in main, no illegal opcode/immediate), finite-table theorems by decide +kernel over opcode and field tables regenerated from the live modules",
@@ -111,7 +111,7 @@ CHECKS = {
             "the real approval TEAL's decoding events equal the model's instruction list and the executed handler echoes exactly what an "
             "independent ARC-4 client encoded; non-void results are logged once with the return prefix; the contract lists the dispatched methods.",
             "Trusted: Lean kernel, ARC-4 convention as written in the spec part (cross-checked with algosdk each run), Arc4.lean, AVM spec, "
-            "algosdk selectors/encodings. One defect repaired (contract ignored overriding_name).",
+            "algosdk selectors/encodings. Two defects repaired (contract ignored overriding_name; contract dropped a positional parameter named output).",
             "DESIGN.md Part II C09"),
     "C10": ("proof",
             "Lean 4 proof: injectivity / requested-id / range / totality theorems on a model of assignScratchSlotsToSubroutines, correspondence on random and boundary slot layouts, marker programs executed on the AVM spec",
